@@ -355,6 +355,37 @@ func c06(c *Ctx) {
 				}
 				seenR, _ := g.Reach([]*GNode{start}, func(y *GNode) bool { return rebinds[y] }, refused)
 				nE, good := len(rebinds), !seenR[g.Exit]
+				if (nE == 0 || !good) && okVar != nil && dqIn != nil && dqIn != f && !definedIn(info, f.Body(), okVar) {
+					// the literal only reports the outcome in a variable of the enclosing function, which re-binds the buffer after
+					// TryDequeue has returned: from the TryDequeue call every way back to the next round (or out) crosses the
+					// "not accepted" outcome of that variable or a re-bind of the buffer
+					og := ix.FG(dqIn)
+					oRebinds := toSet(og.Match(func(m ast.Node) bool {
+						a2, isAs := m.(*ast.AssignStmt)
+						if !isAs || len(a2.Lhs) != len(a2.Rhs) {
+							return false
+						}
+						for i, l2 := range a2.Lhs {
+							if lo := objOf(info, l2); lo == nil || !reaches(lo) {
+								continue
+							}
+							call, ok := unparen(a2.Rhs[i]).(*ast.CallExpr)
+							if ok && (isCallTo(info, call, "slices.Clone") || builtinName(info, call) == "make" || builtinName(info, call) == "append") {
+								return true
+							}
+						}
+						return false
+					}))
+					if dqNode := og.NodeOf(dqCall); dqNode != nil && len(oRebinds) > 0 {
+						// the next round begins at the next evaluation of the TryDequeue call
+						seenO, _ := og.Reach(succNodes(dqNode), func(y *GNode) bool { return oRebinds[y] }, func(e *GEdge) bool {
+							return edgeImplies(e, func(cnd ast.Expr, pol int) bool { return pol < 0 && sameVar(info, cnd, okVar) })
+						})
+						if !seenO[dqNode] {
+							nE, good = len(oRebinds), true
+						}
+					}
+				}
 				c.Check(nE > 0 && good, "R4", key, at(ix.M, n.Pos()), "buf = fresh copy on the accepted path",
 					"after the export goroutine was handed buf[:n] the poller keeps writing into the same backing array (records change under the exporter)")
 			}
@@ -906,4 +937,13 @@ func handedBackResult(ix *PkgIndex, h *FuncInfo, call *ast.CallExpr, buf types.O
 		}
 	}
 	return res, ""
+}
+
+// succNodes: the vertices an edge leads to from x.
+func succNodes(x *GNode) []*GNode {
+	var out []*GNode
+	for _, e := range x.Succs {
+		out = append(out, e.To)
+	}
+	return out
 }
